@@ -42,6 +42,7 @@ var targets = []target{
 	{"types/data.go", "Signature", "ValidateBasic"},
 	{"types/signed_header.go", "SignedHeader", "ValidateBasic"},
 	{"types/data.go", "", "Validate"},
+	{"types/state.go", "State", "NextState"},
 	{"block/manager.go", "Manager", "execValidate"},
 	{"block/manager.go", "Manager", "isUsingExpectedSingleSequencer"},
 	{"block/manager.go", "Manager", "isValidSignedData"},
